@@ -47,7 +47,7 @@ Spots == {i \in Near(1) \cup Near(128) \cup Near(256) \cup Near(32768) \cup Near
 Rec(op, i, res) == [op |-> op, i |-> i, n |-> n, res |-> res, reopened |-> reopened']
 \* any construction stage is an initial state (the loop of New*ListFromSlice after n iterations): keeps the
 \* state graph wide instead of one chain of MaxN steps
-Init == n \in 0..MaxN /\ sealed = FALSE /\ reopened = FALSE /\ hist = <<>>
+Init == n \in 0..MaxN /\ sealed = FALSE /\ reopened = "no" /\ hist = <<>>
 
 Add == /\ ~sealed /\ n < MaxN
        /\ n' = n + 1
@@ -65,14 +65,20 @@ GetAll == /\ Can /\ UNCHANGED <<n, sealed, reopened>>
           /\ hist' = Append(hist, Rec("getall", 0, IterRuns(n)))      \* Get(i) = item i for every i in the runs
 KeyOf(i) == /\ Can /\ UNCHANGED <<n, sealed, reopened>>
             /\ hist' = Append(hist, Rec("key", i, Key(i)))
-Reopen == /\ Can /\ ~reopened /\ reopened' = TRUE /\ UNCHANGED <<n, sealed>>
+\* how = "hash": Flush + New*ListFromHash on the same database;  how = "sync": Flush, then the list is rebuilt in ANOTHER
+\* database from its hash through a merkle.Builder (New*ListWithBuilder, state sync) and used there
+\* ReceiptList.GetProof(i): a Merkle proof for the entry under Key(i) exists iff i < n, and proves item i against the list hash
+Proof(i) == /\ Can /\ UNCHANGED <<n, sealed, reopened>>
+            /\ hist' = Append(hist, Rec("proof", i, [item |-> GetRes(i), key |-> Key(i)]))
+Reopen(how) == /\ Can /\ reopened = "no" /\ reopened' = how /\ UNCHANGED <<n, sealed>>
           /\ hist' = Append(hist, Rec("reopen", 0, n))
 
 Next == \/ Add
         \/ Seal
         \/ Iterate
         \/ GetAll
-        \/ Reopen
+        \/ \E how \in {"hash", "sync"} : Reopen(how)
+        \/ \E i \in Spots : Proof(i)
         \/ \E i \in Spots : Get(i)
         \/ \E i \in Spots : KeyOf(i)
 Spec == Init /\ [][Next]_vars
